@@ -1415,6 +1415,11 @@ pub fn amplify_sites(fx: &Fixture, parts: &mut Parts, n: u32) -> Vec<Vec<StoredF
                                 zp(sheet, Edit::Repeat { off: a, pattern: row.clone(), count: n, start, step, le: vec![] }, format!("xml:amplify {} sheetData replaced by {} generated rows, {}", sheet, n, what)),
                             ]);
                         }
+                        // many shared formulas, each with its own index (one table entry per master cell)
+                        out.push(vec![
+                            zp(sheet, Edit::Delete { off: a, len: b - a }, format!("xml:amplify (removal of the original rows of {})", sheet)),
+                            zp(sheet, Edit::Repeat { off: a, pattern: b"<row r=\"{#}\"><c r=\"A{#}\"><f t=\"shared\" ref=\"A{#}:B{#}\" si=\"{#}\">C1+1</f><v>1</v></c><c r=\"B{#}\"><f t=\"shared\" si=\"{#}\"/><v>2</v></c></row>".to_vec(), count: n, start: 1, step: 1, le: vec![] }, format!("xml:amplify {} sheetData replaced by {} rows, each with a shared formula of its own", sheet, n)),
+                        ]);
                         // one row with many cells in descending column order is not expressible with a
                         // decimal counter (columns are letters); many cells without r (implicit columns):
                         let cells = b"<c><v>{#}</v></c>".to_vec();
@@ -1496,6 +1501,11 @@ pub fn amplify_sites(fx: &Fixture, parts: &mut Parts, n: u32) -> Vec<Vec<StoredF
         }
         Format::Ods => {
             if let Some(data) = parts.part("content.xml") {
+                if let Some(m) = find(&data, b"<table:table ") {
+                    out.push(vec![zp("content.xml", Edit::Repeat { off: m, pattern: b"<table:table table:name=\"t{#}\"><table:table-row><table:table-cell office:value-type=\"float\" office:value=\"{#}\"/></table:table-row></table:table>".to_vec(), count: n, start: 1, step: 1, le: vec![] }, format!("xml:amplify content.xml {} generated tables", n))]);
+                }
+            }
+            if let Some(data) = parts.part("content.xml") {
                 // the first paragraph of a *string* cell (the reader builds the text of those only)
                 let cell = find(&data, b"office:value-type=\"string\"").unwrap_or(0);
                 if let Some(m) = find(&data[cell..], b"<text:p>").map(|m| m + cell) {
@@ -1554,6 +1564,21 @@ pub fn amplify_sites(fx: &Fixture, parts: &mut Parts, n: u32) -> Vec<Vec<StoredF
                             zp(sheet, Edit::Repeat { off: at + rowhdr.len(), pattern: cell, count: n.min(16000), start: n.min(16000) as i64, step: -1, le: vec![(2, 4)] }, format!("xlsb:amplify {} one row with {} cells in descending column order", sheet, n.min(16000))),
                         ]);
                     }
+                }
+            }
+            if let Some(data) = parts.part("xl/workbook.bin") {
+                // after BrtEndBundleShs: BrtName records (flags, key, sheet, name, formula = PtgInt 1);
+                // the name is "n" + four hexadecimal-looking UTF-16 units written by the counter
+                if let Some(r) = xlsb_records(&data).into_iter().find(|r| r.typ == 0x0090) {
+                    let mut payload = vec![0u8; 9];
+                    payload.extend_from_slice(&3u32.to_le_bytes());
+                    payload.extend_from_slice(&[b'n', 0, 0x41, 0x4E, 0x41, 0x4E]); // two CJK units overwritten by the counter
+                    payload.extend_from_slice(&3u32.to_le_bytes());
+                    payload.extend_from_slice(&[0x1E, 1, 0]);
+                    let mut rec = vec![0x27u8, payload.len() as u8];
+                    rec.extend_from_slice(&payload);
+                    // the counter goes into the two UTF-16 units after the 'n' (offset 2 + 9 + 4 + 2)
+                    out.push(vec![zp("xl/workbook.bin", Edit::Repeat { off: r.off + r.hdr + r.len, pattern: rec, count: n, start: 0x4E00_4E00, step: 1, le: vec![(17, 4)] }, format!("xlsb:amplify workbook.bin {} generated defined names", n))]);
                 }
             }
             if let Some(data) = parts.part("xl/sharedStrings.bin") {
